@@ -334,6 +334,7 @@ fn child_main(spec: &Value) -> ! {
     let panic_at = spec["panic_at"].as_u64().unwrap() as usize;
     let prefix: Vec<usize> = spec["choices"].as_array().unwrap().iter().map(|v| v.as_u64().unwrap() as usize).collect();
     let log = std::path::PathBuf::from(spec["log"].as_str().unwrap());
+    run_history(spec["history"].as_u64().unwrap_or(0) as usize, &log);
     let cfg = Config { threads: scn.threads(), consumer_controlled: true, horizon: 400, prefix, state_fn: None, monitor: None, step_log: Some(log), free_receivers: vec![] };
     let x = sched::run(cfg, move |_ctl| {
         let it = build(scn, n, Arc::new(AtomicUsize::new(0)), Some(panic_at));
@@ -351,14 +352,43 @@ fn child_main(spec: &Value) -> ! {
     }
 }
 
-fn panic_clause(run: &mut Run, scn: Scn, n: usize, panic_at: usize, bound: usize, scratch: &tu_verif::refs::Scratch) {
+/// What the process did before the panicking pipe is built (the panic hook is process-global state):
+/// 0 nothing; 1 an earlier 2-worker pipe iterated to its end; 2 that and then `train_bpe` (which
+/// installs a hook of its own); 3 that and then the caller replaces the panic hook. Runs without a
+/// controller (free-running, not part of the explored schedule).
+const HISTORIES: [&str; 4] = ["none", "earlier pipe", "earlier pipe, then train_bpe", "earlier pipe, then the caller sets a panic hook"];
+
+fn run_history(h: usize, log: &std::path::Path) {
+    if h >= 1 {
+        let it = build(Scn { kind: Kind::Pipe, w: 2, b: 0, k: 0, idle: true }, 2, Arc::new(AtomicUsize::new(0)), None);
+        if it.count() != 2 {
+            std::process::exit(5);
+        }
+    }
+    if h == 2 {
+        let corpus = log.with_extension("corpus");
+        let out = log.with_extension("merges");
+        // exit status 5 = the history itself failed (machinery), never a verdict
+        if std::fs::write(&corpus, "ab ab\n").is_err() || text_utils::tokenization::train_bpe(&[&corpus], 320, 63, &out, None, None, 1, false).is_err() {
+            std::process::exit(5);
+        }
+        let _ = std::fs::remove_file(&corpus);
+        let _ = std::fs::remove_file(&out);
+    }
+    if h == 3 {
+        std::panic::set_hook(Box::new(|_| {}));
+    }
+}
+
+#[allow(clippy::too_many_arguments)]
+fn panic_clause(run: &mut Run, scn: Scn, n: usize, panic_at: usize, history: usize, bound: usize, scratch: &tu_verif::refs::Scratch) {
     let exe = std::env::current_exe().expect("own path");
     let mut stack: Vec<Vec<usize>> = vec![vec![]];
     let mut children = 0u64;
     while let Some(prefix) = stack.pop() {
         let log = scratch.path("steps.log");
         let _ = std::fs::remove_file(&log);
-        let spec = json!({"scenario": scn.json(), "items": n, "panic_at": panic_at, "choices": prefix, "log": log.to_str().unwrap()});
+        let spec = json!({"scenario": scn.json(), "items": n, "panic_at": panic_at, "history": history, "choices": prefix, "log": log.to_str().unwrap()});
         let mut child = std::process::Command::new(&exe).arg("--child").arg(spec.to_string()).stdout(std::process::Stdio::null()).stderr(std::process::Stdio::null()).spawn().expect("cannot start child");
         let t0 = std::time::Instant::now();
         let status = loop {
@@ -393,13 +423,16 @@ fn panic_clause(run: &mut Run, scn: Scn, n: usize, panic_at: usize, bound: usize
             run.nontrivial += 1;
         }
         let choices: Vec<usize> = steps.iter().map(|s| s.1).collect();
-        let case = json!({"clause": "panic", "scenario": scn.json(), "items": n, "panic_at": panic_at, "choices": choices});
+        let case = json!({"clause": "panic", "scenario": scn.json(), "items": n, "panic_at": panic_at, "history": history, "before": HISTORIES[history], "choices": choices});
+        run.count(&format!("panic-clause children after history: {}", HISTORIES[history]));
         let code = status.and_then(|s| s.code());
         run.count(&format!("panic-clause child exit {:?}", code));
         match (status, code) {
             (None, _) => run.violation("panic-terminates-process", "", case, "the process was still alive 10 s after a worker's processing function panicked".into()),
             (_, Some(3)) => run.violation("panic-terminates-process", "", case, "after a worker's processing function panicked the process did not terminate: the consumer is blocked forever (no thread can make progress)".into()),
             (_, Some(4)) => run.violation("machinery-replay-divergence", "machinery", case, "child diverged from the schedule prefix".into()),
+            (_, Some(5)) => run.violation("machinery-history-failed", "machinery", case, "the operations before the panicking pipe failed in the child".into()),
+            _ if steps.is_empty() => run.violation("machinery-no-step-log", "machinery", case, format!("child ended with {code:?} without a single scheduling step")),
             _ => {} // terminated by itself (any status) or finished normally: not wedged
         }
         let mut pre = 0usize;
@@ -435,7 +468,7 @@ fn replay(run: &mut Run, case: &Value) {
         let scn = Scn::from_json(&case["scenario"]);
         let exe = std::env::current_exe().unwrap();
         let log = scratch.path("steps.log");
-        let spec = json!({"scenario": scn.json(), "items": case["items"], "panic_at": case["panic_at"], "choices": case["choices"], "log": log.to_str().unwrap()});
+        let spec = json!({"scenario": scn.json(), "items": case["items"], "panic_at": case["panic_at"], "history": case["history"].as_u64().unwrap_or(0), "choices": case["choices"], "log": log.to_str().unwrap()});
         let out = std::process::Command::new(&exe).arg("--child").arg(spec.to_string()).output();
         let code = out.ok().and_then(|o| o.status.code());
         if code == Some(3) || code.is_none() {
@@ -479,17 +512,30 @@ fn main() {
     }
     let us = units(&run);
     // panic clause units come after the scenario units
-    let panic_units: Vec<(Scn, usize, usize)> = {
+    // (scenario, upstream items, panicking item, history, preemption bound)
+    let panic_units: Vec<(Scn, usize, usize, usize, usize)> = {
         let mut v = vec![];
         for w in 1..=2usize {
             for p in 0..=2usize {
-                v.push((Scn { kind: Kind::Pipe, w, b: 0, k: 0, idle: true }, 3usize, p));
+                v.push((Scn { kind: Kind::Pipe, w, b: 0, k: 0, idle: true }, 3usize, p, 0usize, 1usize));
+            }
+        }
+        // from non-initial process states (the panic hook is global): quick the default schedule and
+        // its one-preemption neighbours for the middle item, thorough for every item
+        for h in 1..HISTORIES.len() {
+            for p in 0..=2usize {
+                if p == 1 || !run.quick() {
+                    v.push((Scn { kind: Kind::Pipe, w: 2, b: 0, k: 0, idle: true }, 3usize, p, h, 1usize));
+                }
             }
         }
         if !run.quick() {
             for p in 0..=2usize {
-                v.push((Scn { kind: Kind::Pipe, w: 3, b: 0, k: 0, idle: true }, 3usize, p));
-                v.push((Scn { kind: Kind::Composite, w: 2, b: 1, k: 0, idle: true }, 3usize, p));
+                v.push((Scn { kind: Kind::Pipe, w: 3, b: 0, k: 0, idle: true }, 3usize, p, 0, 1));
+                v.push((Scn { kind: Kind::Composite, w: 2, b: 1, k: 0, idle: true }, 3usize, p, 0, 1));
+            }
+            for h in 1..HISTORIES.len() {
+                v.push((Scn { kind: Kind::Composite, w: 2, b: 1, k: 0, idle: true }, 3usize, 1, h, 1));
             }
         }
         v
@@ -499,8 +545,8 @@ fn main() {
         if n < us.len() {
             println!("{}", json!({"scenario": us[n].scn.json(), "bound": us[n].bound}));
         } else {
-            let (s, items, p) = panic_units[n - us.len()];
-            println!("{}", json!({"panic_clause": s.json(), "items": items, "panic_at": p}));
+            let (s, items, p, h, b) = panic_units[n - us.len()];
+            println!("{}", json!({"panic_clause": s.json(), "items": items, "panic_at": p, "before": HISTORIES[h], "preemption_bound": b}));
         }
         return;
     }
@@ -543,11 +589,11 @@ fn main() {
         per_unit.push(json!({"scenario": scn.json(), "bound": u.bound, "L": l, "per_upstream_length": info}));
     }
     let scratch = tu_verif::refs::Scratch::new("c09");
-    for (j, (scn, items, p)) in panic_units.iter().enumerate() {
+    for (j, (scn, items, p, h, b)) in panic_units.iter().enumerate() {
         if !run.unit((us.len() + j) as u64) {
             continue;
         }
-        panic_clause(&mut run, *scn, *items, *p, 1, &scratch);
+        panic_clause(&mut run, *scn, *items, *p, *h, *b, &scratch);
     }
     drop(scratch);
     run.extra.insert("per_config".into(), json!(per_unit));
